@@ -43,6 +43,9 @@ def transpose_cfg(cfg):
     t['prim'] = [tr(p[0]), tr(p[2]), tr(p[1]), tr(p[3])]
     b = cfg['bc']
     t['bc'] = {'left': copy.deepcopy(b['bottom']), 'right': copy.deepcopy(b['top']), 'bottom': copy.deepcopy(b['left']), 'top': copy.deepcopy(b['right'])}
+    for v in t['bc'].values():
+        if 'angle' in v:
+            v['angle'] = 90.0 - v['angle']       # the prescribed inflow direction is transposed with the problem
     return t
 
 
@@ -60,6 +63,9 @@ def reflect_cfg(cfg, axis):
         t['bc'] = {'left': copy.deepcopy(b['right']), 'right': copy.deepcopy(b['left']), 'bottom': copy.deepcopy(b['bottom']), 'top': copy.deepcopy(b['top'])}
     else:
         t['bc'] = {'left': copy.deepcopy(b['left']), 'right': copy.deepcopy(b['right']), 'bottom': copy.deepcopy(b['top']), 'top': copy.deepcopy(b['bottom'])}
+    for v in t['bc'].values():
+        if 'angle' in v:
+            v['angle'] = (180.0 - v['angle']) if axis == 'x' else -v['angle']     # and reflected with it
     return t
 
 
